@@ -32,6 +32,7 @@ import (
 
 	"github.com/mimiro-io/datahub/internal/conf"
 	"github.com/mimiro-io/datahub/internal/server"
+	"github.com/mimiro-io/datahub/internal/verifhook"
 )
 
 // NodeInfo is a data structure that represents a node in the security topology
@@ -343,6 +344,7 @@ func (serviceCore *ServiceCore) RegisterClient(clientInfo *ClientInfo) {
 	}
 
 	jsonData, _ := json.Marshal(serviceCore.GetClients())
+	verifhook.Point(serviceCore, "security.beforePersistClients")
 	_ = ioutil.WriteFile(serviceCore.Location+string(os.PathSeparator)+"clients.json", jsonData, 0o644)
 }
 
@@ -374,6 +376,7 @@ func (serviceCore *ServiceCore) SetClientAccessControls(clientID string, acls []
 	serviceCore.accessControls.Store(clientID, acls)
 
 	jsonData, _ := json.Marshal(serviceCore.GetAllAccessControls())
+	verifhook.Point(serviceCore, "security.beforePersistACLs")
 	_ = ioutil.WriteFile(serviceCore.Location+string(os.PathSeparator)+"acls.json", jsonData, 0o644)
 }
 
